@@ -1590,7 +1590,7 @@ def run_compress(case):
             over_eff = round(1.5 * cap)
         elif cap is not None:
             over_eff = 2 * cap if method.startswith("zipup") else max(round(1.5 * cap), cap + 10)  # documented defaults
-    info = dict(method=method, input=inp["kind"], reverse=case["reverse"], cap=case["cap"], cutoff=case["cutoff"],
+    info = dict(method=method, input=inp["kind"], reverse=case["reverse"], capkind=case["cap"], cutoff=case["cutoff"],
                 canonize=case["canonize"], equalize=str(case["equalize"]), normalize=normalize)
     f0 = fingerprint(tn)
     # contract: methods that need an explicit bond dimension refuse None (ValueError; TypeError for srcmps);
@@ -1765,7 +1765,7 @@ def run_direct(case):
         raise AssertionError(f"harness: distance {dist} below the Eckart-Young lower bound {lower}")
     return {"nt": truncated, "cls": ["input=" + inp["kind"], "how=" + how, f"L={L}", "via=" + via, "truncated" if truncated else "untruncated",
                                      "mode=" + info["mode"], "tight" if bound > 0 and dist > 0.5 * bound else "slack"],
-            "err": (dist / bound) if bound > 1e-9 * nref else 0.0}
+            "err": max(0.0, dist - bound) / nref}
 
 
 # ---------------------------------------------------------------------------
@@ -1848,7 +1848,7 @@ def run_flat(case):
         kw["cutoff"] = cutoff
     form = case["form"]
     fval = case["centre"] if form == "int" else form
-    info = dict(route=route, op=op, form=str(form), cap=case["cap"], cutoff=case["cutoff"])
+    info = dict(route=route, op=op, form=str(form), capkind=case["cap"], cutoff=case["cutoff"])
     sites = list(range(L))
     centre = None
     if route == "compress":
